@@ -475,7 +475,8 @@ func getOffer(header []byte, isAccepted func(spec, offer string, specParams head
 					delete(params, k)
 				}
 				fasthttp.VisitHeaderParams(spacesForTabs(accept[i:]), func(key, value []byte) bool {
-					if len(key) == 1 && key[0] == 'q' {
+					// the weight's name is case-insensitive like every parameter name
+					if len(key) == 1 && (key[0] == 'q' || key[0] == 'Q') {
 						if q, err := fasthttp.ParseUfloat(value); err == nil {
 							quality = q
 						}
